@@ -116,11 +116,11 @@ Proof. vm_compute. left. reflexivity. Qed.
 (* ------------------------------------------------------------------ *)
 Definition exP : kparams :=
   {| p_max_tx_size := 32768; p_min_transact := 0; p_min_transfer := 10; p_gas_byte := 1;
-     p_gas_transfer := 1000; p_gas_burn := 1000; p_min_gas_price := 0 |}.
+     p_gas_transfer := 1000; p_gas_burn := 1000; p_min_gas_price := 0; p_reserved := [] |}.
 Definition exC := kcfg exP chain_separator tx_context [1].
 
 Definition ex_tx (signer nonce : N) (valid : bool) : kraw :=
-  {| k_len := 200; k_env := true; k_pk := signer; k_sigvalid := valid;
+  {| k_len := 200; k_env := true; k_pk := signer; k_black := false; k_sigvalid := valid;
      k_tx := Some {| kt_nonce := nonce; kt_fee := Some (10, 10000); kt_method := 3;
                      kt_to := 9; kt_amount := 100; kt_body_ok := true |} |}.
 
